@@ -113,23 +113,26 @@ fn run_one_inner(quick: bool, verbose: bool) -> Outcome {
     let grid: Vec<(usize, usize, usize)> = if quick { GRID.iter().copied().filter(|g| g.0 <= 5000 || g.1 >= 65536).collect() } else { GRID.to_vec() };
     let (len, wchunk, rbuf) = grid[explore::choose(grid.len() as u32, Kind::Free) as usize];
     // 0 AsyncRead, 1 readable()+read, 2 polled once under a first task, then handed to a second one
-    let reader_flavour = explore::choose(3, Kind::Free);
+    // 3: AsyncRead::read_vectored into two uneven buffers
+    let reader_flavour = explore::choose(4, Kind::Free);
     // 0 task (AsyncWrite), 1 raw peer, 2 task using writable()+write; 3 / 4: as 0 / 2, but the task
     // first polls readable() on the same adapter once and abandons that wait (a lost select! branch):
     // the wait that follows is for the other direction
-    let writer_choice = explore::choose(5, Kind::Free);
-    let wprobe = writer_choice >= 3;
+    // 5: task using write_vectored (two uneven slices per call)
+    let writer_choice = explore::choose(6, Kind::Free);
+    let wprobe = writer_choice == 3 || writer_choice == 4;
     let writer_flavour = match writer_choice {
         3 => 0,
         4 => 2,
+        5 => 3,
         x => x,
     };
     let pre_nb = explore::choose(2, Kind::Free) == 1;
     let end_into_inner = explore::choose(2, Kind::Free) == 1;
     out.decoded.push(format!(
         "len={len} wchunk={wchunk} rbuf={rbuf} reader={} writer={} pre_nonblocking={pre_nb} end={}",
-        ["AsyncRead", "readable()", "handoff"][reader_flavour as usize],
-        ["task", "raw-peer", "writable()", "abandoned-readable()+task", "abandoned-readable()+writable()"][writer_choice as usize],
+        ["AsyncRead", "readable()", "handoff", "read_vectored"][reader_flavour as usize],
+        ["task", "raw-peer", "writable()", "abandoned-readable()+task", "abandoned-readable()+writable()", "write_vectored"][writer_choice as usize],
         if end_into_inner { "into_inner" } else { "drop" }
     ));
     let data = pattern(len);
@@ -226,6 +229,25 @@ fn run_one_inner(quick: bool, verbose: bool) -> Outcome {
                                 break;
                             }
                         }
+                    } else if fl == 3 {
+                        let mid = (buf.len() / 3).max(1).min(buf.len());
+                        let (a, b) = buf.split_at_mut(mid);
+                        let (la, lb) = (a.len(), b.len());
+                        let r = {
+                            let mut bufs = [std::io::IoSliceMut::new(a), std::io::IoSliceMut::new(b)];
+                            rx.read_vectored(&mut bufs).await
+                        };
+                        match r {
+                            Ok(0) => break,
+                            Ok(n) => {
+                                let _ = (la, lb);
+                                got.extend_from_slice(&buf[..n]);
+                            }
+                            Err(_) => {
+                                ok = false;
+                                break;
+                            }
+                        }
                     } else {
                         rx.readable().await;
                         match rx.get_mut().read(&mut buf) {
@@ -259,6 +281,20 @@ fn run_one_inner(quick: bool, verbose: bool) -> Outcome {
                         if tx.write_all(chunk).await.is_err() {
                             ok = false;
                             break;
+                        }
+                    } else if fl == 3 {
+                        let mut off = 0;
+                        while off < chunk.len() {
+                            let mid = (chunk.len() - off) / 3;
+                            let (a, b) = chunk[off..].split_at(mid);
+                            let bufs = [std::io::IoSlice::new(a), std::io::IoSlice::new(b)];
+                            match tx.write_vectored(&bufs).await {
+                                Ok(0) | Err(_) => {
+                                    ok = false;
+                                    break 'outer;
+                                }
+                                Ok(n) => off += n,
+                            }
                         }
                     } else {
                         let mut off = 0;
